@@ -1,6 +1,8 @@
 import QipVerif.Lemmas.SimBorn
 import QipVerif.Lemmas.SimWrites
 import QipVerif.Lemmas.SimDm
+import QipVerif.Lemmas.SimIdeal
+import QipVerif.Lemmas.SimIdealEmbed
 /-!
 # C02 — measurement branches obey the Born rule and drive classical control
 
@@ -12,6 +14,7 @@ list passed); `c.Valid` = indices in range, control values non-negative.
 -/
 namespace QipVerif.C02
 open QipVerif.Sim QipVerif.Heap
+open Matrix
 
 /-- an empty world whose heap holds the caller's lists -/
 def world0 (lists : List (List Int)) : World Exact.QS Exact.Prob :=
@@ -197,6 +200,101 @@ theorem fires_iff (g : Gate) (cs : List Nat) (v : Nat) (bits : List Int) (hcc : 
   rw [hcc, hccv]
   simp only
   rw [checkCCV_spec cs v bits hv hr hb]
+
+/-! ## Born rule on `ℂ`-vectors: the branch of a record is the normalised projector chain -/
+
+/-- **branch_prob.** Ideal backend `idealBackend N tol U` on `N` qubits: gates act by matrices `U code qubits` that
+preserve the norm (unitaries, e.g. `Tg.embed` of a unitary — `unitary_preserves_norm`), a measurement has the Born
+probability `‖P_o φ‖²` of the normalised state `φ`, is pruned (`None`, probability `0`) when that is `≤ tol`
+(`= atol²`), and otherwise collapses to `P_o φ/‖P_o φ‖` as `measurement_statistics` does.  For every circuit, initial
+bits, normalised initial vector `ψ` and record `r`, under the threshold hypothesis `NoTiny` (at no measurement along
+the record does the conditional probability lie in `(0, tol]`): with `ψ_r` the UNNORMALISED vector obtained by applying
+to `ψ`, in program order, every gate whose condition holds on the current bits and the projector of the recorded
+outcome at every measurement (`specRun`),
+
+* the accumulated probability of the branch is `‖ψ_r‖²`;
+* the branch is pruned iff `ψ_r = 0`;
+* otherwise the reported state is `ψ_r/‖ψ_r‖` and the reported bits are those of `ψ_r`'s run;
+* "the condition holds" is, for an in-range condition, the integer comparison of `cond_iff`
+  (first listed bit most significant) — the same `firesB` decides the gates of `ψ_r`. -/
+theorem branch_prob {N : ℕ} (tol : ℝ) (htol : 0 ≤ tol) (U : ℕ → List ℕ → Matrix (Basis N) (Basis N) ℂ)
+    (hU : ∀ code qs ψ, normSqV ((U code qs).mulVec ψ) = normSqV ψ) (c : Circuit) (bits0 : Option (List Int))
+    (ψ : Vec N) (hψ : normSqV ψ = 1) (r : List Int) (hr : ∀ i ∈ r, i = 0 ∨ i = 1)
+    (hnt : NoTiny tol U ⟨bits0, ψ, r⟩ c.ops) :
+    (branch (idealBackend N tol U) c bits0 ψ r).prob = normSqV (specRun U ⟨bits0, ψ, r⟩ c.ops).v ∧
+    ((branch (idealBackend N tol U) c bits0 ψ r).st = none ↔ (specRun U ⟨bits0, ψ, r⟩ c.ops).v = 0) ∧
+    (∀ φ, (branch (idealBackend N tol U) c bits0 ψ r).st = some φ →
+      φ = scaleV (Real.sqrt (normSqV (specRun U ⟨bits0, ψ, r⟩ c.ops).v))⁻¹ (specRun U ⟨bits0, ψ, r⟩ c.ops).v ∧
+      (branch (idealBackend N tol U) c bits0 ψ r).bits = (specRun U ⟨bits0, ψ, r⟩ c.ops).bits) ∧
+    (∀ (g : Gate) (cs : List Nat) (v : Nat) (bits : List Int), g.cc = some (cs.map Int.ofNat) → g.ccv = v →
+      v < 2 ^ cs.length → (∀ x ∈ cs, x < bits.length) → (∀ x ∈ cs, bits.getD x 0 = 0 ∨ bits.getD x 0 = 1) →
+      firesB g (some bits) = decide (valMSB (cs.map fun x => (bits.getD x 0).toNat) = v)) := by
+  have h0 : BInv (N := N) ⟨bits0, some ψ, 1, r⟩ ⟨bits0, ψ, r⟩ := by
+    refine ⟨hψ.symm, Or.inl ⟨ψ, rfl, by rw [hψ]; exact one_pos, ?_, rfl, rfl⟩⟩
+    funext x; simp [scaleV, hψ]
+  have h := binv_run tol htol U hU c.ops _ _ h0 hr hnt
+  obtain ⟨hp, hcase⟩ := h
+  refine ⟨hp, ?_, ?_, fun g cs v bits h1 h2 h3 h4 h5 => fires_iff g cs v bits h1 h2 h3 h4 h5⟩
+  · constructor
+    · intro hn
+      rcases hcase with ⟨φ, hst, _⟩ | ⟨_, hv⟩
+      · unfold branch at hn; rw [hst] at hn; cases hn
+      · exact hv
+    · intro hv
+      rcases hcase with ⟨φ, hst, hpos, _⟩ | ⟨hst, _⟩
+      · rw [hv, normSqV_zero] at hpos; exact absurd hpos (lt_irrefl 0)
+      · exact hst
+  · intro φ hφ
+    rcases hcase with ⟨φ', hst, _, hφ', hbits, _⟩ | ⟨hst, _⟩
+    · unfold branch at hφ
+      rw [hst] at hφ
+      cases hφ
+      exact ⟨hφ', hbits⟩
+    · unfold branch at hφ; rw [hst] at hφ; cases hφ
+
+/-- a unitary matrix preserves the norm — the hypothesis `hU` of `branch_prob` for unitary gates -/
+theorem unitary_preserves_norm {N : ℕ} (M : Matrix (Basis N) (Basis N) ℂ) (h : Mᴴ * M = 1) (ψ : Vec N) :
+    normSqV (M.mulVec ψ) = normSqV ψ :=
+  unitary_isometry M h ψ
+
+/-- gates given as C08's placement `Tg.embed` of a unitary on `k` qubits (any injective qubit list, any register
+size) preserve the norm: `branch_prob` and `probs_sum_one_born` apply to every circuit of such gates -/
+theorem embed_unitary_preserves_norm {k N : ℕ} (t : QipVerif.Tg k N) (U : Matrix (QipVerif.St k) (QipVerif.St k) ℂ)
+    (h : Uᴴ * U = 1) (ψ : Vec N) :
+    normSqV ((t.embed U : Matrix (Basis N) (Basis N) ℂ).mulVec ψ) = normSqV ψ :=
+  embed_preserves_norm t U h ψ
+
+/-- **probs_sum_one_born.** For the ideal backend the probabilities of all `2^m` records of a circuit (measurement
+targets inside the register) sum to one, and so do those of the surviving records — from `born_split` and unitarity
+alone, no splitting hypothesis on the backend; the threshold hypothesis is `NoTiny` for every record. -/
+theorem probs_sum_one_born {N : ℕ} (tol : ℝ) (htol : 0 ≤ tol) (U : ℕ → List ℕ → Matrix (Basis N) (Basis N) ℂ)
+    (hU : ∀ code qs ψ, normSqV ((U code qs).mulVec ψ) = normSqV ψ) (c : Circuit)
+    (ht : ∀ t store, Op.meas t store ∈ c.ops → t < N) (bits0 : Option (List Int)) (ψ : Vec N) (hψ : normSqV ψ = 1)
+    (hnt : ∀ r ∈ records c.numMeas, NoTiny tol U ⟨bits0, ψ, r⟩ c.ops) :
+    (((records c.numMeas).map (branchEntry (idealBackend N tol U) c bits0 ψ)).map (·.2.1)).sum = 1 ∧
+    ((((records c.numMeas).map (branchEntry (idealBackend N tol U) c bits0 ψ)).filter
+        (fun e => e.1.isSome)).map (·.2.1)).sum = 1 := by
+  have hall : (((records c.numMeas).map (branchEntry (idealBackend N tol U) c bits0 ψ)).map (·.2.1)).sum = 1 := by
+    have hs := spec_norms_sum U hU c.ops ⟨bits0, ψ, []⟩ ht
+    rw [hψ, ← numMeas_eq] at hs
+    rw [← hs, List.map_map]
+    congr 1
+    apply List.map_congr_left
+    intro r hr
+    have hb := (records_isRecord c r hr).2
+    exact (branch_prob tol htol U hU c bits0 ψ hψ r hb (hnt r hr)).1
+  refine ⟨hall, ?_⟩
+  rw [sum_filter_of_zero, hall]
+  intro e he hdead
+  obtain ⟨r, hr, rfl⟩ := List.mem_map.mp he
+  have hb := (records_isRecord c r hr).2
+  obtain ⟨hp, hz, _⟩ := branch_prob tol htol U hU c bits0 ψ hψ r hb (hnt r hr)
+  simp only [branchEntry] at hdead ⊢
+  have hnone : (branch (idealBackend N tol U) c bits0 ψ r).st = none := by
+    cases hs : (branch (idealBackend N tol U) c bits0 ψ r).st with
+    | none => rfl
+    | some q => simp [hs] at hdead
+  rw [hp, hz.mp hnone, normSqV_zero]
 
 /-! ## Density-matrix mode -/
 
